@@ -90,7 +90,8 @@ mk_cb(struct bay_chan *b, int phase, struct rec *r, struct chan *c, int may_casc
 	struct bay_cb *cb = alloc(sizeof(struct bay_cb));
 	cb->func = stub_cb; cb->arg = r; cb->bchan = b; cb->enabled = 1; cb->type = phase;
 	r->exists = 1; r->calls = 0; r->state = -1; r->ret = 0; r->seq = -1; r->chan = c; r->chan_ok = 0;
-	r->cascade = (CASCADE && may_cascade) ? nondet_bool() : 0;
+	/* CASCADE 1: the first dirty-phase callback of channel 0 writes X; 2: the first emit-phase callback does */
+	r->cascade = (CASCADE == 1 && r == &REC(0, 0, 0)) || (CASCADE == 2 && r == &REC(0, 1, 0));
 	return cb;
 }
 
@@ -100,6 +101,9 @@ mk_chan_cbs(struct bay_chan *b, struct chan *c, int k)
 	for (int p = 0; p < 2; p++) {
 		int n = nondet_int();
 		__CPROVER_assume(n >= 0 && n <= MAXCB);
+#if CASCADE
+		if (k == 0 && p == CASCADE - 1) n = 1;   /* the writing callback exists (keeps the list shape concrete) */
+#endif
 		g_ncb[k][p] = n;
 		struct bay_cb *c0 = n >= 1 ? mk_cb(b, p, &REC(k, p, 0), c, 1) : NULL;
 		struct bay_cb *c1 = n >= 2 ? mk_cb(b, p, &REC(k, p, 1), c, 1) : NULL;
@@ -114,8 +118,14 @@ build(void)
 	g_seq = 0; g_failed_seq = -1; g_x_written = 0;
 	G_bay = alloc(sizeof(struct bay));
 	G_bay->dirty = NULL;
+#if CASCADE
+	g_nd = 1;
+#elif defined(ND)
+	g_nd = ND;       /* one group per number of dirty channels (a concrete list shape is much cheaper) */
+#else
 	g_nd = nondet_int();
 	__CPROVER_assume(g_nd >= 0 && g_nd <= MAXND);
+#endif
 	for (int k = 0; k < NCH; k++) {
 		G_b[k] = alloc(sizeof(struct bay_chan));
 		G_c[k] = alloc(sizeof(struct chan));
@@ -215,19 +225,29 @@ void h_bay_propagate(void)
 	struct value c0 = spec_cur(G_c[0]), c1 = spec_cur(G_c[1]);
 	VASSERT(c0.type == v0.type && c0.i == v0.i && c1.type == v1.type && c1.i == v1.i, "channel values are not modified by propagation");
 
-#if MAXND >= 2 && MAXCB >= 2
+#if MAXND >= 2 && MAXCB >= 2 && (!defined(ND) || ND == 2)
 	if (r == 0 && w_nd == 2 && w_n00 == 2 && w_n01 == 2 && w_n10 == 2 && w_n11 == 2) REACH("two dirty channels, two callbacks per phase each, all ran");
 #endif
+#if !CASCADE && (!defined(ND) || ND == 0)
 	if (r == 0 && w_nd == 0) REACH("nothing dirty");
-#if CASCADE
-	if (r == 0 && w_nd == 1 && w_x_written && XREC(0).exists && XREC(1).exists) REACH("a callback made another channel dirty; it was served and flushed");
-	if (r != 0 && w_x_written && G_bay->state == BAY_EMITTING && XREC(0).calls == 0) REACH("an emit callback wrote a channel: refused");
 #endif
-#if MAXND >= 2
+#if CASCADE == 1
+	if (r == 0 && w_nd == 1 && w_x_written && XREC(0).exists && XREC(1).exists) REACH("a callback made another channel dirty; it was served and flushed");
+#endif
+#if CASCADE == 2
+	if (r != 0 && w_x_written && G_bay->state == BAY_EMITTING && XREC(0).calls == 0) REACH("an emit callback wrote a channel: refused");
+	VASSERT(!w_x_written || r != 0, "writing a channel from an emit callback makes the propagation fail");
+#endif
+#if MAXND >= 2 && (!defined(ND) || ND == 2)
 	if (r != 0 && w_nd == 2) REACH("a callback failed");
 #endif
+#if !defined(ND) || ND >= 1
 	if (r != 0 && w_nd >= 1 && G_bay->state == BAY_EMITTING) REACH("an emit callback failed");
-#if MAXND >= 2
+#endif
+#if CASCADE != 2
+	if (r == 0) REACH("propagation succeeded");
+#endif
+#if MAXND >= 2 && (!defined(ND) || ND == 2)
 	if (r == 0 && w_nd == 2 && w_n00 == 0 && w_n10 == 0 && w_n01 == 0 && w_n11 == 0) REACH("dirty channels without callbacks are just flushed");
 #endif
 }
